@@ -321,7 +321,13 @@ func TestC07(t *testing.T) {
 				}
 				scripts = append(scripts, sc)
 			}
+			if round%2 == 1 {
+				// every second round a caller that has read the current value is held for a moment before it writes
+				sched.Install(int64(envInt("VERIF_SEED", 1))).Delays(sched.Rule{Prefix: "atomic.read", Prob: 0.5, Max: 3 * time.Millisecond},
+					sched.Rule{Prefix: "put.", Prob: 0.3, Max: time.Millisecond})
+			}
 			rec.Run("c07", scripts, yielder(rng))
+			sched.Install(0).Delays()
 			// the final value, read through one more path
 			fin := paths[rng.Intn(len(paths))]
 			rec.Run("c07", []Script{{Client: "fin", Path: fin, Steps: []Step{
